@@ -425,6 +425,10 @@ func (vr *variableResolver) resolve(ctx *ExecutionContext) (*Value, error) {
 		// into the execution context (e.g. in a for-loop)
 		if current.Type() == typeOfValuePtr {
 			tmpValue := current.Interface().(*Value)
+			if tmpValue == nil {
+				// a nil *Value stands for nothing
+				return AsValue(nil), nil
+			}
 			current = tmpValue.val
 			isSafe = tmpValue.safe
 		}
@@ -538,10 +542,13 @@ func (vr *variableResolver) resolve(ctx *ExecutionContext) (*Value, error) {
 
 			if rv.Type() != typeOfValuePtr {
 				current = reflect.ValueOf(rv.Interface())
-			} else {
+			} else if fv := rv.Interface().(*Value); fv != nil {
 				// Return the function call value
-				current = rv.Interface().(*Value).val
-				isSafe = rv.Interface().(*Value).safe
+				current = fv.val
+				isSafe = fv.safe
+			} else {
+				// The function returned a nil *Value: nothing
+				return AsValue(nil), nil
 			}
 		}
 
